@@ -10,7 +10,7 @@ LEVEL = "model_checking"
 
 
 def grid_of(spec):
-    return H.reg(spec[1]) if spec[0] == "reg" else H.near(spec[1])
+    return H.grid_of(spec)
 
 
 def menu_for(kind, spec):
@@ -20,10 +20,11 @@ def menu_for(kind, spec):
 
 def plan(tier):
     if tier == "quick":
-        specs = [("reg", L) for L in (1, 2, 3, 4, 5, 6, 7)] + [("near", 2), ("near", 3), ("near", 4)]
+        specs = [("reg", L) for L in (1, 2, 3, 4, 5, 6, 7)] + [("near", 2), ("near", 3), ("near", 4),
+                                                                ("far", 3), ("far", 4)]
     else:
         specs = [("reg", L) for L in (1, 2, 3, 4, 5, 6, 7, 8, 9)] + \
-            [("near", 2), ("near", 3), ("near", 4), ("near", 5)]
+            [("near", 2), ("near", 3), ("near", 4), ("near", 5), ("far", 3), ("far", 5)]
     tasks, desc = [], []
     for kind in ("pwc", "pwl"):
         for spec in specs:
@@ -179,7 +180,8 @@ def check_function(r, kind, spec, name, args, model, be="py"):
     # ---- bounds validation (constant pieces only)
     if kind == "pwc":
         for iv in ([pts[0] - U, pts[1]], [pts[0], pts[-1] + U], [pts[-1], pts[0]],
-                   [pts[0] - H.DELTA, pts[1]], [pts[0], pts[-1] + H.DELTA],
+                   [float(np.nextafter(pts[0], -np.inf)), pts[1]],
+                   [pts[0], float(np.nextafter(pts[-1], np.inf))],
                    [pts[1], pts[0]] if len(pts) > 1 else [pts[-1], pts[0]]):
             try:
                 v = f.integral(iv)
@@ -196,6 +198,24 @@ def check_function(r, kind, spec, name, args, model, be="py"):
     if H.snapshot(kind, f) != snap:
         viol("modified", {}, "unchanged", H.canon(kind, f), "a read-only operation modified the "
              "function")
+        return
+    # queries after an in-place change must see the changed function (nothing may be cached
+    # across mul_scalar)
+    try:
+        f.mul_scalar(0.5)
+        w2, a2 = float(f.integral()), float(f.avrg())
+        mid = [float(f(t)) for t in pts]
+    except Exception as e:
+        viol("after_mul.exception", {}, "values", "%s: %s" % (type(e).__name__, e),
+             "queries after mul_scalar raised")
+        return
+    if abs(w2 - 0.5 * we) > TOL or abs(a2 - 0.5 * we / (pts[-1] - pts[0])) > TOL or \
+            any(abs(a - 0.5 * b) > TOL for a, b in zip(mid, exp)):
+        viol("after_mul", {"sequence": "integral(); avrg(); f(t); mul_scalar(0.5); integral(); "
+                                       "avrg(); f(t)"},
+             {"integral": 0.5 * we, "avrg": 0.5 * we / (pts[-1] - pts[0])},
+             {"integral": w2, "avrg": a2},
+             "integral / avrg / evaluation after mul_scalar do not reflect the scaled function")
     r.outcomes.add(tuple(round(v, 9) for v in exp))
 
 
